@@ -1,0 +1,65 @@
+//go:build verif
+
+// Package verifhook re-exports internals for the external verification harness.
+// Every file in this package carries the build tag "verif"; without the tag the
+// package does not exist for go build, go vet, go list or go test.
+package verifhook
+
+import (
+	"fmt"
+
+	"github.com/verily-src/fhirpath-go/fhirpath"
+	"github.com/verily-src/fhirpath-go/fhirpath/system"
+	"github.com/verily-src/fhirpath-go/internal/fhir"
+	"google.golang.org/protobuf/proto"
+)
+
+// Resources converts proto messages into the internal resource slice type that
+// Expression.Evaluate takes (a type no external module can name).
+func Resources(input []proto.Message) ([]fhir.Resource, error) {
+	out := make([]fhir.Resource, 0, len(input))
+	for _, m := range input {
+		r, ok := m.(fhir.Resource)
+		if !ok {
+			return nil, fmt.Errorf("verifhook: %T is not a resource", m)
+		}
+		out = append(out, r)
+	}
+	return out, nil
+}
+
+// Evaluate calls (*fhirpath.Expression).Evaluate.
+func Evaluate(e *fhirpath.Expression, input []proto.Message, opts ...fhirpath.EvaluateOption) (system.Collection, error) {
+	rs, err := Resources(input)
+	if err != nil {
+		return nil, err
+	}
+	return e.Evaluate(rs, opts...)
+}
+
+// EvaluateAsBool calls (*fhirpath.Expression).EvaluateAsBool.
+func EvaluateAsBool(e *fhirpath.Expression, input []proto.Message, opts ...fhirpath.EvaluateOption) (bool, error) {
+	rs, err := Resources(input)
+	if err != nil {
+		return false, err
+	}
+	return e.EvaluateAsBool(rs, opts...)
+}
+
+// EvaluateAsString calls (*fhirpath.Expression).EvaluateAsString.
+func EvaluateAsString(e *fhirpath.Expression, input []proto.Message, opts ...fhirpath.EvaluateOption) (string, error) {
+	rs, err := Resources(input)
+	if err != nil {
+		return "", err
+	}
+	return e.EvaluateAsString(rs, opts...)
+}
+
+// EvaluateAsInt32 calls (*fhirpath.Expression).EvaluateAsInt32.
+func EvaluateAsInt32(e *fhirpath.Expression, input []proto.Message, opts ...fhirpath.EvaluateOption) (int32, error) {
+	rs, err := Resources(input)
+	if err != nil {
+		return 0, err
+	}
+	return e.EvaluateAsInt32(rs, opts...)
+}
